@@ -142,6 +142,45 @@ def escaped_spec_check(g, direct):
     return 1
 
 
+def path_spec_check(g, direct):
+    """A data-path argument written as a '{path...: parts}' spec (suffixes and their short forms in any letter case, either order) means
+    what the path object means: the rule parsed from the spec judges like the rule built with DataPath(...).modifier()."""
+    from ..terms import valida
+    v = valida()
+    doc = {"items": [1, 2, 3], "n": 3, "limit": 2, "names": {"a": 1, "b": 2}}
+    base, parts = g.r.choice([("items", ["items"]), ("names", ["names"]), ("limit", ["limit"])])
+    dmod = g.r.choice([None, "length", "dtype", "map_keys"]) if base != "limit" else g.r.choice([None, "dtype"])
+    spell = {"length": ["length", "len"], "dtype": ["dtype", "type"], "map_keys": ["map_keys"]}
+
+    def randcase(t):
+        return "".join(ch.upper() if g.r.random() < 0.5 else ch.lower() for ch in t)
+    key = randcase("path") + ("." + randcase(g.r.choice(spell[dmod])) if dmod else "")
+    meth, lit_other = g.r.choice([("equal_to", None), ("not_equal_to", None), ("less_than", None), ("in", 7)])
+    pos = g.r.choice(["whole", "item"]) if meth == "in" else "whole"
+    spec_arg = {key: list(parts)}
+    p = v.DataPath(*parts)
+    if dmod:
+        p = getattr(p, dmod)()
+    if meth == "in":
+        spec_arg, api_arg = [spec_arg, lit_other], [p, lit_other]
+    else:
+        api_arg = p
+    target = g.r.choice([["n"], ["items", {"type": "list_value"}]])
+
+    def api():
+        r = v.Rule(path=v.DataPath.from_part_specs(*copy.deepcopy(target)), condition=getattr(v.Value, "in_" if meth == "in" else meth)(api_arg))
+        return obs_rule_test(r.test(copy_value(doc)))
+
+    def spec():
+        r = v.Rule.from_spec({"path": copy.deepcopy(target), "condition": {"value." + meth: copy.deepcopy(spec_arg)}})
+        return obs_rule_test(r.test(copy_value(doc)))
+    a, b = E.run_outcome(api), E.run_outcome(spec)
+    if a != b:
+        direct.append({"kind": "direct", "what": "a rule whose data-path argument is written as a spec judges differently from the rule built with the path object",
+                       "spec_argument": repr(spec_arg)[:200], "callable": meth, "api": repr(a)[:200], "spec": repr(b)[:200]})
+    return 1
+
+
 def type_sensitive_rule(g, rg, doc):
     """A rule whose verdict depends on the TYPE of what its path argument selects (the data type of a number, a range bound):
     a number in the document is referred to by a concrete path."""
@@ -182,6 +221,8 @@ def run(tier, seed, model_ok, spec_ok, replay=None):
     for _ in range(n):
         if g.r.random() < 0.08:
             ndirect += escaped_spec_check(g, direct)
+        if g.r.random() < 0.08:
+            ndirect += path_spec_check(g, direct)
         doc = g.document(4, 4)
         rt = rg.rule(doc, cast_p=0.0, path_args_p=1.0)
         if g.r.random() < 0.15:
